@@ -6,8 +6,6 @@ from copy import deepcopy
 from typing import List, Tuple, Optional
 from datetime import datetime, timedelta, timezone
 
-from timeslot import Timeslot
-
 from aw_core import Event
 
 
@@ -53,32 +51,32 @@ def union_no_overlap(events1: List[Event], events2: List[Event]) -> List[Event]:
     while e1_i < len(events1) and e2_i < len(events2):
         e1 = events1[e1_i]
         e2 = events2[e2_i]
-        e1_p = Timeslot(e1.timestamp, e1.timestamp + e1.duration)
-        e2_p = Timeslot(e2.timestamp, e2.timestamp + e2.duration)
+        e1_end = e1.timestamp + e1.duration
+        e2_end = e2.timestamp + e2.duration
 
-        if e1_p.intersects(e2_p):
-            if e1.timestamp <= e2.timestamp:
-                events_union.append(e1)
-                e1_i += 1
-
-                # If e2 continues after e1, we need to split up the event so we only get the part that comes after
-                _, e2_next = _split_event(e2, e1.timestamp + e1.duration)
-                if e2_next:
-                    events2[e2_i] = e2_next
-                else:
-                    e2_i += 1
+        if e1_end <= e2.timestamp:
+            # e1 lies entirely before e2
+            events_union.append(e1)
+            e1_i += 1
+        elif e2_end <= e1.timestamp:
+            # e2 lies entirely before e1
+            events_union.append(e2)
+            e2_i += 1
+        elif e2.timestamp < e1.timestamp:
+            # e2 starts before e1: keep the part before e1, continue with the rest of e2
+            e2_before, e2_rest = _split_event(e2, e1.timestamp)
+            events_union.append(e2_before)
+            if e2_rest:
+                events2[e2_i] = e2_rest
             else:
-                e2_next, e2_next2 = _split_event(e2, e1.timestamp)
-                events_union.append(e2_next)
                 e2_i += 1
-                if e2_next2:
-                    events2.insert(e2_i, e2_next2)
         else:
-            if e1.timestamp <= e2.timestamp:
-                events_union.append(e1)
-                e1_i += 1
+            # e2 starts within e1: drop the covered part, continue with what remains after e1.
+            # e1 is kept as current since it may cover later events of events2 as well.
+            _, e2_rest = _split_event(e2, e1_end)
+            if e2_rest:
+                events2[e2_i] = e2_rest
             else:
-                events_union.append(e2)
                 e2_i += 1
     events_union += events1[e1_i:]
     events_union += events2[e2_i:]
